@@ -804,7 +804,13 @@ func (s *src) t6() (string, error) {
 	}
 	var b strings.Builder
 	b.WriteString("/- REGENERATED by `pgtharness extract` (T6) from /repo/imports.go (Imports.isBuiltinType). Do not edit. -/\nnamespace PGT.Generated\n\n")
-	fmt.Fprintf(&b, "/-- the type names `isBuiltinType` answers true for, in source order -/\ndef builtinTypes : List String := %s\n\nend PGT.Generated\n", leanList(names))
+	fmt.Fprintf(&b, "/-- the type names `isBuiltinType` answers true for, in source order -/\ndef builtinTypes : List String := %s\n\n", leanList(names))
+	// the qualification rule itself (the model function `prependPackageNameIfMissing` is a transcription of this body)
+	pp := s.funcDecl("imports.go", "Imports", "PrependPackageNameIfMissing")
+	if pp == nil || pp.Body == nil {
+		return "", fmt.Errorf("T6: Imports.PrependPackageNameIfMissing not found")
+	}
+	fmt.Fprintf(&b, "def srcPrependPackageNameIfMissing : String := %s\n\nend PGT.Generated\n", leanStr(strings.Join(strings.Fields(s.str(pp.Body)), " ")))
 	return b.String(), nil
 }
 
